@@ -50,10 +50,20 @@ func RawTx(typ int32, source, target string, nonce uint64, data, extra, salt str
 	return tx
 }
 
+// ProveValue is the prove value the block is cast with.
+func (spec BlockSpec) ProveValue() *big.Int {
+	if !spec.PVWide {
+		return big.NewInt(spec.PV)
+	}
+	v := new(big.Int).Lsh(big.NewInt(spec.PV), 64)
+	return v.Or(v, big.NewInt(1<<20-spec.PV))
+}
+
 // BlockSpec describes one block to cast on top of a given head.
 type BlockSpec struct {
 	QN     uint64
 	PV     int64
+	PVWide bool // prove value = PV<<64 | (1<<20 - PV): full-width like a real VRF output; its low 64 bits order the other way round
 	Castor int
 	TimeMs int64  // offset of CurTime from EpochTime
 	Skip   uint64 // height slots skipped (the block is cast at parent height + 1 + Skip)
@@ -90,7 +100,7 @@ func (n *Node) castBlock(spec BlockSpec) (*types.Block, error) {
 	ts := EpochTime.Add(time.Duration(spec.TimeMs) * time.Millisecond)
 	noteSimTime(EpochTime)
 	noteSimTime(ts)
-	bh, ok := n.Chain.CastBlock(ts, top.Height+1+spec.Skip, big.NewInt(spec.PV), common.Hash{}, spec.QN, common.FromHex(Castors[spec.Castor%len(Castors)]), group.Id)
+	bh, ok := n.Chain.CastBlock(ts, top.Height+1+spec.Skip, spec.ProveValue(), common.Hash{}, spec.QN, common.FromHex(Castors[spec.Castor%len(Castors)]), group.Id)
 	if !ok {
 		return nil, fmt.Errorf("CastBlock refused")
 	}
